@@ -191,6 +191,18 @@ CLAIMED = {
              "1..7 joints with physically structured inertias, finite-difference identities at 1e-6, algebraic ones at "
              "1e-8; arms built through the public setters.",
         note="TLC exact integer arithmetic; RefEval link poses / potential; finite differences for D6, D7, energy"),
+    "C17": dict(
+        level="model_checking", design="3/C17",
+        technique="TLA+ spec KernelShapes.tla: shape contracts of the loop-indexed kernels and a model of their Python "
+                  "callers; TLC proves every caller (arm sizes 1..7, every link/joint index) meets its callee's contract; "
+                  "contracts bound to the compiled kernels by bounds-checked probes on both sides of each contract; public "
+                  "entry points run with and without NUMBA_BOUNDSCHECK=1 with every observed kernel call validated by TLC "
+                  "against KernelTrace.tla; each jitted function compared with its py_func on C/F/sliced/int arguments",
+        text="TLC decides the caller/contract relation and validates observed call shapes; memory safety itself is detected "
+             "by Numba's bounds checker in a subprocess. Bounded (n <= 7) on the model, sampled entry-point battery on the "
+             "code.",
+        note="Numba bounds checker is the detector; TLC holds contracts and call-shape validation; separate numba cache "
+             "for the bounds-checked runs"),
 }
 
 NOT_YET = "check not built yet in this round (planned: see DESIGN.md section 3)"
